@@ -4,7 +4,7 @@ from common import wire, show_str
 import psdesc
 
 THEOREMS = ['Pylx.C17_tables', 'Pylx.C17_derived_eq_fresh', 'Pylx.C17_fields', 'Pylx.C17_same_peek', 'Pylx.C17_as_is_counterexample']
-RULE = ('PS: chains of sub_context() calls (length <= 3 exhaustive over a pool of change sets in the quick tier for the math '
+RULE = ('PS (steps may also hand over a NEW latex_context object in the same call): chains of sub_context() calls (length <= 3 exhaustive over a pool of change sets in the quick tier for the math '
         'fields, random chains over all fields otherwise) from several root states; model: final fields and cached tables; '
         'oracle on the implementation: derived state vs ParsingState(**same fields): equal cached tables and equal token '
         'sequences on every probe string over an alphabet containing every configured delimiter, and the parent state is unchanged; '
@@ -61,11 +61,21 @@ def cases(tier, rng):
                 rng.shuffle(allp) if rng.random() < 0.3 else None
                 k = rng.randint(0, 4)
                 kw.update({'il': allp[:k], 'dl': allp[k:]})
+            if rng.random() < 0.25:
+                # a new latex_context in the same call (what a \\newcommand-like delta with set_attributes does)
+                kw['nc'] = rng.choice([['~'], ['~', '\n\n', '``'], [], ['!', '~']])
             chain.append(kw)
         yield {'root': root, 'chain': chain}
+    # a new latex_context together with each change set of the pool, after one ordinary step
+    for first in MATH_POOL[:6]:
+        for d in POOL:
+            for root in ROOTS[:2]:
+                yield {'root': root, 'chain': [first, dict(d, nc=['~', '``'])]}
+                yield {'root': root, 'chain': [dict(d, nc=['~'])]}
 
 def enc_chain(chain):
-    return '/'.join(psdesc.enc_desc(d) for d in chain)
+    # 'nc' (a NEW latex_context object given in the same call) is not a field of the model's parsing state
+    return '/'.join(psdesc.enc_desc({k: v for k, v in d.items() if k != 'nc'}) for d in chain)
 
 def to_line(c):
     # bug flag F: the model of the repaired code
@@ -93,11 +103,15 @@ def run_impl(c):
     recomputed = set()
     for d in c['chain']:
         before_f = psdesc.show_fields(ps); before_t = psdesc.show_tables(ps)
-        kw = psdesc.to_kwargs(d)
+        kw = psdesc.to_kwargs({k: v for k, v in d.items() if k != 'nc'})
+        if 'nc' in d:
+            kw['latex_context'] = psdesc.make_context(d['nc'])
         child = ps.sub_context(**kw)
         if (psdesc.show_fields(ps), psdesc.show_tables(ps)) != (before_f, before_t) and not fail:
             fail = {'kind': 'parent-changed', 'detail': 'sub_context(%r) altered the state it was called on' % (d,)}
-        if child.latex_context is not ps.latex_context and not fail:
+        if 'nc' in d and child.latex_context is not kw['latex_context'] and not fail:
+            fail = {'kind': 'context-not-set', 'detail': repr(d)}
+        if 'nc' not in d and child.latex_context is not ps.latex_context and not fail:
             fail = {'kind': 'context-not-inherited', 'detail': repr(d)}
         recomputed |= set(child._parent_parsing_state_info[1].keys())
         ps = child
